@@ -238,6 +238,7 @@ class Repo:
                 parts = parts[:-1]
             name = ".".join(parts)
             mod = ModuleInfo(name=name, path=path, relpath=rel, source=source, tree=tree)
+            mod.repo = self  # type: ignore[attr-defined]
             self.modules[name] = mod
             self._index_module(mod, is_pkg=path.name == "__init__.py")
 
